@@ -250,10 +250,15 @@ bool i_ga::load_impl(std::istream &in, const symbol_set &)
   if (!(in >> sz))
     return false;
 
-  decltype(genome_) v(sz);
-  for (auto &g : v)
+  // The size read from the stream isn't trusted for an up-front allocation.
+  decltype(genome_) v;
+  for (decltype(sz) i(0); i < sz; ++i)
+  {
+    value_type g;
     if (!(in >> g))
       return false;
+    v.push_back(g);
+  }
 
   genome_ = v;
 
